@@ -299,6 +299,30 @@ func exclusiveC10(c *Ctx) {
 			okr := len(cnts) > 0 && P.Before(q.fn, an.In(cnts), r) && q.onlyViaEdge(r, eqIfs[0], ts)
 			q.add("PATH", "a Start returns early only after it attached to the item currently in the map", okr,
 				pickS(okr, "the nil return is dominated by count++ and reached only through e.work[key] == item", "a start-style call can return without having attached to a valid item: no execution would follow that Start"), r)
+			// ... and only if it is not the first caller of the item (the first one spawns the runner): reached only through
+			// the "!= 1" edge of a test of the incremented count
+			cifs, cnegs := P.IfsOn(q.fn, func(cond ssa.Value) bool {
+				b, ok := cond.(*ssa.BinOp)
+				if !ok || (b.Op != token.EQL && b.Op != token.NEQ) {
+					return false
+				}
+				return either(b, loadOfField("exclusiveItem.count"), func(v ssa.Value) bool { k, isK := constInt(v); return isK && k == 1 })
+			})
+			okc := false
+			for i, ci := range cifs {
+				ne := 0 // successor taken when count != 1
+				if cnegs[i] {
+					ne = 1
+				}
+				if stripNotV(ci.Cond).(*ssa.BinOp).Op == token.EQL {
+					ne = 1 - ne
+				}
+				if q.onlyViaEdge(r, ci, ne) && P.Before(q.fn, an.In(cnts), ci) {
+					okc = true
+				}
+			}
+			q.add("PATH", "a Start returns early only if an earlier caller of the item spawns the runner", okc,
+				pickS(okc, "the nil return is reached only through count != 1 (tested after count++)", "the first caller of an item can take the start-style early return: nobody would run the work"), r)
 		}
 		for _, s := range an.FieldStores(q.fn, "exclusiveItem.count") {
 			if ld, isL := isLoad(s.(*ssa.Store).Addr.(*ssa.FieldAddr).X); isL {
@@ -414,6 +438,13 @@ func exclusiveC10(c *Ctx) {
 			okc = r.onlyViaEdge(ws, ifc[0], ts)
 		}
 		r.add("PATH", "a waiter copies the result only from a completed item", okc, "send reached only through complete == true", ws)
+		// ... only if there is an outcome channel, and then always
+		wifn, wnil, wfound := r.nilTestOf(func(v ssa.Value) bool {
+			_, isL := isLoad(v)
+			return isL && v.Type().String() == ws.Chan.Type().String()
+		})
+		okw := wfound && r.onlyViaEdge(ws, wifn, 1-wnil) && !P.PathExists(r.fn, wifn, an.IsReturn, an.Is(ws), cutEdge(wifn, wnil))
+		r.add("PATH", "a waiter with an outcome channel always gets the completed result", okw, pickS(okw, "the send is reached only through outcome != nil, and from there on every path", "a coalesced caller can be left without an outcome (or a start-style call sends on a nil channel and blocks for ever)"), ws)
 		excl := !P.PathExists(r.fn, ws, an.Is(a.work), nil, nil)
 		r.add("PATH", "a waiter's outcome and the runner's outcome are mutually exclusive", excl, pickS(excl, "no path leads from the waiter's send to the work call (hence to resolve)", "after delivering a completed result the goroutine can still run the work and deliver a second outcome"), ws)
 		closes := P.CallsTo(r.fn, "builtin:close")
